@@ -87,13 +87,14 @@ def work(args):
     with open(path, 'w') as fh:
         # the default session, and one on which only the PEER offered the 4-octet-AS capability (AS numbers travel in two
         # octets there, but the peer still understands the 4-octet-AS specific communities of RFC 5668)
-        for tag, extra in (('', None), ('@local-as2', {'four_bytes_as': False})):
+        # ... and an internal (iBGP) session: the agent then adds the default LOCAL_PREF to the request itself
+        for tag, extra in (('', None), ('@local-as2', {'four_bytes_as': False}), ('@ibgp', {'ras': 65001})):
             w = established(extra)
             for i, v in vecs:
-                line = run_vector(w, i, v, asn4=not tag)
+                line = run_vector(w, i, v, asn4=(tag != '@local-as2'))
                 if tag:
                     line['id'] = i + 50000000
-                    line['asn4'] = False
+                    line['asn4'] = (tag != '@local-as2')
                 line['sess'] = tag or 'default'
                 fh.write(json.dumps(line, separators=(',', ':')) + '\n')
                 n += 1
